@@ -105,10 +105,11 @@ def handler(idx, c, plain=False):
         return ('        #[scpi(cmd = %s)]\n'
                 '        pub %sfn h%d%s(&mut self%s) -> Result<%s, Error> { %s }\n') % (
                     rust_str(c["cmd"]), kw, idx, lt, params, rty, body)
+    fname = c.get("fn", "h%d" % idx)
     return ('        #[scpi(cmd = %s)]\n'
-            '        pub %sfn h%d%s(&mut self%s) -> Result<%s, Error> {\n'
+            '        pub %sfn %s%s(&mut self%s) -> Result<%s, Error> {\n'
             '            rec::call(%d, rec::args_of(|| vec![%s])); %s%s\n'
-            '        }\n') % (rust_str(c["cmd"]), kw, idx, lt, params, rty, idx, logargs, sus, body)
+            '        }\n') % (rust_str(c["cmd"]), kw, fname, lt, params, rty, idx, logargs, sus, body)
 
 
 def plain_module(d):
@@ -151,6 +152,23 @@ def iface_module(d):
     out.append("    use microscpi::{self as scpi, Error};")
     out.append("    use crate::rec::{self, ArgJ};")
     out.append(d.get("prelude", ""))
+    life = d.get("lifetime", False)
+    if life:
+        # an interface type with a lifetime parameter (borrows something from its owner)
+        out.append("    pub struct I<'d> { pub tag: &'d str }")
+        out.append("    impl<'d> scpi::ErrorHandler for I<'d> {")
+        out.append("        fn handle_error(&mut self, e: Error) { rec::log_err(e) }")
+        out.append("    }")
+        out.append("    #[scpi::interface(%s)]" % ', '.join(attrs))
+        out.append("    impl<'d> I<'d> {")
+        out.append("        pub fn tag_len(&self) -> usize { self.tag.len() }")
+        for i, c in enumerate(d["cmds"]):
+            out.append(handler(i, c))
+        out.append("    }")
+        out.append("    crate::impl_dut!(D, I<'static>, I { tag: \"tag\" }, [%s], [%s]);" % (
+            ', '.join(map(str, caps)), ', '.join(map(str, ns))))
+        out.append("}")
+        return '\n'.join(out) + '\n'
     if "ErrorCommands" in attrs:
         if generic:
             out.append("    pub struct I<const K: usize> { pub q: rec::RecQueue<K> }")
